@@ -97,7 +97,9 @@ static void chain_case (long idx, vf_rng *r)
         rc = &recipes[(idx / 3 * 2 + (idx % 3)) % n_recipes];
         int cover = recipe_request (r, rc, &q);
         rq_gen_geometry (r, &q, 0);
-        if (cover && !q.cover && q.src.kind == RQ_BITS && q.src.tr_class <= TR_SCALE_ANY) {
+        /* quarter-turn routines work in tiles of 64 bytes: wide enough requests for several whole tiles */
+        if (q.src.kind == RQ_BITS && q.src.tr_class >= TR_ROT90 && q.src.tr_class <= TR_ROT270 && vf_chance (r, 1, 2)) { q.dst.w = (int)vf_range (r, 40, 200); q.dx = 0; q.w = q.dst.w; rq_gen_geometry (r, &q, 0); q.dx = (int)vf_range (r, 0, 3); q.w = q.dst.w - q.dx - (int)vf_range (r, 0, 3); }
+        if (cover && !q.cover && q.src.kind == RQ_BITS && q.src.tr_class <= TR_ROT270) {
             /* insist on cover: regenerate the geometry a few times */
             for (int t = 0; t < 6 && !q.cover; t++) rq_gen_geometry (r, &q, 0);
         }
